@@ -280,10 +280,15 @@ bool ComponentEntity::doEquals(const EntityPtr &other) const
         if ((componentEntity != nullptr)
             && pFunc()->mEncapsulationId == componentEntity->encapsulationId()
             && pFunc()->mComponents.size() == componentEntity->componentCount()) {
+            // Match every child with a distinct child of the other entity.
+            auto unmatchedComponents = componentEntity->pFunc()->mComponents;
             for (const auto &component : pFunc()->mComponents) {
-                if (!componentEntity->containsComponent(component, false)) {
+                auto match = std::find_if(unmatchedComponents.begin(), unmatchedComponents.end(),
+                                          [=](const ComponentPtr &c) -> bool { return c->equals(component); });
+                if (match == unmatchedComponents.end()) {
                     return false;
                 }
+                unmatchedComponents.erase(match);
             }
             return true;
         }
